@@ -48,6 +48,8 @@ pub struct EpCfg {
     pub timeout: Option<u64>,
     pub seed: u64,
     pub v6: bool,
+    /// other sockets sharing the SocketSet: 0 none, 1 a closed TCP socket before, 2 an idle bound UDP socket after, 3 both plus a spare listener
+    pub spare: u8,
 }
 
 pub struct Ep {
@@ -101,7 +103,24 @@ impl Ep {
             s.set_tsval_generator(Some(ts_gen));
         }
         let mut sockets = SocketSet::new(vec![]);
+        // neighbours in the socket set that have no deadline of their own (and never match the connection's ports)
+        if cfg.spare == 1 || cfg.spare == 3 {
+            sockets.add(tcp::Socket::new(tcp::SocketBuffer::new(vec![0u8; 64]), tcp::SocketBuffer::new(vec![0u8; 64])));
+        }
         let h = sockets.add(s);
+        if cfg.spare >= 2 {
+            let mut u = smoltcp::socket::udp::Socket::new(
+                smoltcp::socket::udp::PacketBuffer::new(vec![smoltcp::socket::udp::PacketMetadata::EMPTY; 2], vec![0u8; 128]),
+                smoltcp::socket::udp::PacketBuffer::new(vec![smoltcp::socket::udp::PacketMetadata::EMPTY; 2], vec![0u8; 128]),
+            );
+            u.bind(9).unwrap();
+            sockets.add(u);
+        }
+        if cfg.spare == 3 {
+            let mut l = tcp::Socket::new(tcp::SocketBuffer::new(vec![0u8; 64]), tcp::SocketBuffer::new(vec![0u8; 64]));
+            l.listen(9).unwrap();
+            sockets.add(l);
+        }
         Ep { idx, iface, dev, sockets, h, cfg, written: 0, read: 0, closed_at: None }
     }
     pub fn sock(&mut self) -> &mut tcp::Socket<'static> {
@@ -228,6 +247,7 @@ fn pick_cfg(rng: &mut Rng, seed: u64, small: bool) -> EpCfg {
         timeout: *rng.pick(&[None, None, None, Some(6000u64), Some(30000)]),
         seed,
         v6: rng.chance(40),
+        spare: *rng.pick(&[0u8, 0, 1, 2, 3]),
     }
 }
 
@@ -326,8 +346,8 @@ pub fn pair(args: &Args) {
         }
         let reader_stall = [if rng.chance(25) { rng.range(100, 5000) as i64 } else { 0 }, if rng.chance(35) { rng.range(100, 5000) as i64 } else { 0 }];
         t.ev(json!({"ev":"reset","run":run,"world":"tcp_pair","seed":seed0,"pollat":pollat_mode,
-            "v6":ca.v6,"cfg":[{"rx":ca.rx,"tx":ca.tx,"mtu":ca.mtu,"cc":ca.cc,"ad":ca.ack_delay.map(|x| x as i64).unwrap_or(-1),"nagle":ca.nagle,"ts":ca.ts,"isn":wa,"ka":ca.keep_alive.map(|x| x as i64).unwrap_or(-1),"tmo":ca.timeout.map(|x| x as i64).unwrap_or(-1)},
-                   {"rx":cb.rx,"tx":cb.tx,"mtu":cb.mtu,"cc":cb.cc,"ad":cb.ack_delay.map(|x| x as i64).unwrap_or(-1),"nagle":cb.nagle,"ts":cb.ts,"isn":wb,"ka":cb.keep_alive.map(|x| x as i64).unwrap_or(-1),"tmo":cb.timeout.map(|x| x as i64).unwrap_or(-1)}],
+            "v6":ca.v6,"cfg":[{"rx":ca.rx,"tx":ca.tx,"mtu":ca.mtu,"cc":ca.cc,"ad":ca.ack_delay.map(|x| x as i64).unwrap_or(-1),"nagle":ca.nagle,"ts":ca.ts,"isn":wa,"ka":ca.keep_alive.map(|x| x as i64).unwrap_or(-1),"tmo":ca.timeout.map(|x| x as i64).unwrap_or(-1),"spare":ca.spare},
+                   {"rx":cb.rx,"tx":cb.tx,"mtu":cb.mtu,"cc":cb.cc,"ad":cb.ack_delay.map(|x| x as i64).unwrap_or(-1),"nagle":cb.nagle,"ts":cb.ts,"isn":wb,"ka":cb.keep_alive.map(|x| x as i64).unwrap_or(-1),"tmo":cb.timeout.map(|x| x as i64).unwrap_or(-1),"spare":cb.spare}],
             "link":{"drop":drop_pct,"dup":dup_pct,"flip":flip_pct,"delay":base_delay,"jitter":jitter,"adv_until":adv_until},"total":total}));
         // open: B listens, A connects
         let mut now: i64 = 0;
@@ -820,7 +840,7 @@ impl PeerW {
 }
 
 fn peer_cfg(args: &Args, seed: u64) -> EpCfg {
-    EpCfg { rx: args.usize("rx", 2), tx: args.usize("tx", 4), mtu: args.usize("mtu", 1500), cc: args.u64("cc", 0) as u8, ack_delay: None, nagle: args.flag("nagle"), ts: false, keep_alive: None, timeout: None, seed, v6: args.flag("v6") }
+    EpCfg { rx: args.usize("rx", 2), tx: args.usize("tx", 4), mtu: args.usize("mtu", 1500), cc: args.u64("cc", 0) as u8, ack_delay: None, nagle: args.flag("nagle"), ts: false, keep_alive: None, timeout: None, seed, v6: args.flag("v6"), spare: args.u64("spare", 0) as u8 }
 }
 
 /// Replays TLC schedules (steps exported from MCTcpPeer) on a real listening socket.
@@ -921,7 +941,7 @@ pub fn peer_random(args: &Args) {
         let rx = *rng.pick(&[4usize, 16, 64, 256, 1000, 4096, 70000, 131072]);
         let tx = *rng.pick(&[8usize, 64, 512, 4096, 70000]);
         let mtu = *rng.pick(&[576usize, 1500, 296, 9000]);
-        let cfg = EpCfg { rx, tx, mtu, cc: rng.below(3) as u8, ack_delay: if rng.chance(40) { Some(10) } else { None }, nagle: rng.chance(50), ts: false, keep_alive: None, timeout: None, seed, v6: rng.chance(40) };
+        let cfg = EpCfg { rx, tx, mtu, cc: rng.below(3) as u8, ack_delay: if rng.chance(40) { Some(10) } else { None }, nagle: rng.chance(50), ts: false, keep_alive: None, timeout: None, seed, v6: rng.chance(40), spare: *rng.pick(&[0u8, 0, 1, 2, 3]) };
         let peer_iss = match rng.below(4) {
             0 => 0xffff_ff00u32.wrapping_add(rng.below(200) as u32),
             1 => 0x7fff_ff00u32.wrapping_add(rng.below(200) as u32),
